@@ -41,7 +41,7 @@ def run(chk):
     chk.add_tlc(res, "xof-scripts")
     scripts = sorted(res.replay)
     if not thorough:
-        scripts = scripts[::5]   # reads vary fastest in the sorted order; 5 is coprime to the 12 read sequences
+        scripts = scripts[::7]   # reads vary fastest in the sorted order; 7 is coprime to the 20 read sequences
     fn = os.path.join(vlib.WORK, "c11_xof_scripts.ndjson")
     vlib.write_lines(fn, scripts)
     trace = os.path.join(vlib.WORK, "c11_xof_trace.ndjson")
@@ -85,7 +85,7 @@ def run(chk):
         "re-reads a byte. Binding (sampling): scripted byte streams with a rejected chunk before every one of 70 elements (more than two 32-element buffers), "
         "double rejections at the buffer boundaries, and field changes at every offset around the boundaries (incl. the Poplar1 Field64->Field255 pattern and a "
         "1-byte field followed by a 32-byte field) are fed to the real Prng (hook H3) and to the public IntoFieldVec for all seven fields; the elements must be "
-        "the accepted chunks, as computed by TLC. Binding (XOFs): every split of a 4-byte tag and binder into <= 3 parts x 12 read-size sequences straddling 16/32-"
+        "the accepted chunks, as computed by TLC. Binding (XOFs): every split of a 4-byte tag and binder into <= 3 parts x 20 read-size sequences (aligned, unaligned ending on, inside and beyond block boundaries) straddling 16/32-"
         "byte boundaries, on TurboSHAKE128, fixed-key AES128 (both construction APIs), HMAC-SHA256-AES128 and raw AES128-CTR with two seeds each; TLC checks all "
         "runs are prefix-consistent views of one function per (family, seed, tag, binder), of exactly the requested length, and that derived seeds are stream prefixes."
         % (("15", "6") if thorough else ("12", "5")))
